@@ -11,6 +11,7 @@ CONSTANTS
   KeepFlushedBlock = TRUE
   MetaAtomic = TRUE
   StartupIngest = FALSE
+  MetaSkipsEmptyBlock = FALSE
   MaxMeta = 0
   NpDp = 0
 INVARIANTS TypeOK PrefixPerFile NoInvent Rejected InOrder MetaNoInvent CompleteReplay Durable
